@@ -112,6 +112,25 @@ def publishWith (v : Variant) (desc : Bool) (z : MSess) (rid : Nat) : PubOut :=
 def write (z : MSess) : MSess :=
   { z with subs := z.subs.map fun x => { x with s := { x.s with pending := x.s.hasItem } } }
 
+/-- `get_mut(id)` + `Subscription::set_priority` (what ModifySubscription does); `none` = no such
+subscription -/
+def setPrio (z : MSess) (id prio : Nat) : Option MSess :=
+  if z.subs.any (fun x => x.id == id) then
+    some { z with subs := z.subs.map fun x => if x.id == id then { x with prio := prio } else x }
+  else none
+
+/-- `Subscriptions::remove` (what DeleteSubscriptions does): (session, was it there) -/
+def remove (z : MSess) (id : Nat) : MSess × Bool :=
+  ({ z with subs := z.subs.filter fun x => x.id != id }, z.subs.any fun x => x.id == id)
+
+/-- insertion into the map, keeping ascending ids; an existing id is replaced -/
+def insertById (x : Entry) : List Entry → List Entry
+  | [] => [x]
+  | y :: ys => if x.id < y.id then x :: y :: ys else if x.id = y.id then x :: ys else y :: insertById x ys
+
+/-- `Subscriptions::insert` of a new subscription (state Creating) -/
+def add (z : MSess) (x : Entry) : MSess := { z with subs := insertById x z.subs }
+
 /-- the current source: descending priority -/
 def tick := tickWith C22.current true
 def publish := publishWith C22.current true
